@@ -27,11 +27,27 @@ Definition t_cdec (d : bytes) : mres uval :=
 Definition t_qerr (c : Z) : option bytes :=
   match find (fun p => (fst p =? c)%Z) err_registry with Some p => Some (snd p) | None => None end.
 
+(** the ActorRef factory (actor.NewRef) is an uninterpreted function of the model: the harness records
+    every call the real decoder makes and passes the answers along with the case *)
+Definition oracle := list (bytes * bytes * mres (bytes * bytes)).
+Definition o_newref (o : oracle) (a p : bytes) : mres (bytes * bytes) :=
+  match find (fun e => bytes_eqb (fst (fst e)) a && bytes_eqb (snd (fst e)) p) o with
+  | Some e => snd e
+  | None => MErr MEFuel     (* the real code asked a question the harness did not record *)
+  end.
+Definition get_oracle (t : tm) : option oracle :=
+  get_list (fun e => match e with
+                     | TL [TB a; TB p; TL [TN 0; TB a'; TB p']] => Some (a, p, MOk (a', p'))
+                     | TL [TB a; TB p; TL [TN 1]] => Some (a, p, MErr MEBadRef)
+                     | _ => None
+                     end) t.
+
 Notation tmsg := (msg uval).
 
 Definition merr_code (e : merr) : N :=
   match e with
   | ME e => err_code e | MECodec => 10 | MENoCodec => 11 | MERecovered => 12 | MECrash => 13 | MEFuel => 14
+  | MEBadRef => 15
   end.
 Definition tmres {A} (f : A -> tm) (r : mres A) : tm :=
   match r with MOk a => TL [TN 0; f a] | MErr e => TL [TN 1; TN (merr_code e)] end.
@@ -210,16 +226,18 @@ Definition run_msgs (t : tm) : tm :=
       | Some hc, Some m => tmres TB (write_message uval hc t_cenc m)
       | _, _ => tm_err 1
       end
-  | TL [TN 4; hc; TN k; TB bs] =>
-      match get_bool hc, kind_of_code k with
-      | Some hc, Some k =>
-          tmres (fun p => TL [t_msg (fst p); consumed bs (snd p)]) (drun (deserialize_remoting uval hc t_cdec t_qerr k) bs)
-      | _, _ => tm_err 1
+  | TL [TN 4; hc; TN k; TB bs; o] =>
+      match get_bool hc, kind_of_code k, get_oracle o with
+      | Some hc, Some k, Some o =>
+          tmres (fun p => TL [t_msg (fst p); consumed bs (snd p)])
+                (drun (deserialize_remoting uval hc t_cdec t_qerr (o_newref o) k) bs)
+      | _, _, _ => tm_err 1
       end
-  | TL [TN 5; hc; TB bs] =>
-      match get_bool hc with
-      | Some hc => tmres (fun p => TL [t_msg (fst p); consumed bs (snd p)]) (drun (read_message uval hc t_cdec t_qerr) bs)
-      | _ => tm_err 1
+  | TL [TN 5; hc; TB bs; o] =>
+      match get_bool hc, get_oracle o with
+      | Some hc, Some o =>
+          tmres (fun p => TL [t_msg (fst p); consumed bs (snd p)]) (drun (read_message uval hc t_cdec t_qerr (o_newref o)) bs)
+      | _, _ => tm_err 1
       end
   | TL [TN 6; hc; TL [sys; s; r; m]] =>
       match get_bool hc, get_bool sys, get_eref s, get_eref r, get_msg m with
@@ -227,14 +245,14 @@ Definition run_msgs (t : tm) : tm :=
           tmres TB (enc_envelope uval hc t_cenc {| e_system := sys; e_sender := s; e_receiver := r; e_msg := m |})
       | _, _, _, _, _ => tm_err 1
       end
-  | TL [TN 7; hc; TB bs] =>
-      match get_bool hc with
-      | Some hc =>
+  | TL [TN 7; hc; TB bs; o] =>
+      match get_bool hc, get_oracle o with
+      | Some hc, Some o =>
           tmres (fun p => let o := fst p in
                           TL [tbool (o_system _ o); TB (o_saddr _ o); TB (o_spath _ o); TB (o_raddr _ o); TB (o_rpath _ o);
                               t_msg (o_msg _ o)])
-                (drun (dec_envelope uval hc t_cdec t_qerr) bs)
-      | _ => tm_err 1
+                (drun (dec_envelope uval hc t_cdec t_qerr (o_newref o)) bs)
+      | _, _ => tm_err 1
       end
   | TL [TN 8; TB addr] => TB (enc_handshake addr)
   | TL [TN 9; TB old; TB chunk] =>
